@@ -204,6 +204,10 @@ def run(prop, tier, seed, replay, scratch, t0):
         got = corr.run_model([cases[i] for i in sel])
         mr = [None] * len(cases)
         for i, r in zip(sel, got): mr[i] = r
+        if hasattr(mod, 'model_view'):
+            # the command-line model (Model/Cli.lean) on the same sequences of invocations
+            sel2 = [i for i, c in enumerate(cases) if c.get('op') == 'cli' and c.get('meta', {}).get('clicorr')]
+            for i, r in zip(sel2, corr.run_model([mod.model_view(cases[i]) for i in sel2])): mr[i] = r
     else:
         mr = [None] * len(cases)
 
@@ -215,6 +219,10 @@ def run(prop, tier, seed, replay, scratch, t0):
         if b is None: continue
         if b.get('kind') == 'oom': n_oom += 1; continue
         if a.get('kind') == 'hang' and not c.get('meta', {}).get('compare_hang'): continue
+        if c.get('meta', {}).get('clicorr'):
+            d = mod.model_diff(c, a, b)
+            if d: diffs.append(dict(idx=i, **d))
+            continue
         if c.get('meta', {}).get('nocorr'): continue
         d = corr.diff(a, b, c.get('meta', {}).get('fields', fields))
         if d: diffs.append(dict(idx=i, **d))
